@@ -16,6 +16,7 @@ KERNEL_TRUST = [
     "abstract kernel Model/Kernel.lean: seccomp(2)/prctl(2) semantics incl. TSYNC all-or-nothing with the positive-tid refusal, EACCES without no_new_privs/CAP_SYS_ADMIN, EINVAL for unknown flags / rejected programs — modelled, validated against the running kernel (6.18) by live histories",
     "the skeleton translator (harness/cmd/vextract/skeleton.go): Go statement subset → Lean state-passing definitions (Gen/Skeletons.lean); anything outside the subset becomes an opaque step of an arbitrary oracle U",
 ]
+from hooks_c19 import hook as c19_hook, replay as c19_replay   # C19: names the (target, constant, value, expected) behind a broken theorem
 
 
 def policy_stream(profile, quick, thorough, corpus=None, seeds=3, extra=None):
@@ -90,5 +91,19 @@ PROPS = {
         "trusted": KERNEL_TRUST,
         "assumptions": ["the Go scheduler is modelled as: the goroutine may continue on any live thread at a schedule point unless runtime.LockOSThread is in effect",
                         "the harness forces migration attempts at the hook between prctl and seccomp (sleep + Gosched with busy Ps)"],
+    },
+    "C19": {
+        "lean": ["Seccomp.Proofs.C19"],
+        # one pass over the facts; thorough additionally runs go build + go vet for every target (scratch GOCACHE)
+        "streams": [{"stream": "consts", "profile": "targets", "quick": 1, "thorough": 1, "timeout": 3000}],
+        "hook": c19_hook,
+        "replay": c19_replay,
+        "exhaustive": True,
+        "trusted": ["go/packages + go/types constant evaluation under each GOOS/GOARCH (the translator's per-target rows); the linux/amd64 row is compared with the compiled package on every run, every row with `go build`/`go vet` in the thorough tier",
+                    "the installed kernel UAPI headers and gcc (oracle Gen.uapi); one hand-written oracle row: ENOSYS = 89 on linux/mips* (no MIPS headers installed), documented in Proofs/C19.lean",
+                    "`no call expression in the body` is taken as `performs no system call` for the three stubs (the stub file declares nothing else and imports nothing)"],
+        "assumptions": ["the target list is `go tool dist list` of the installed toolchain (go1.23.5: 49 pairs) in the thorough tier and a 14-target cross-section (9 linux ports incl. 2 MIPS, darwin, windows, freebsd, js/wasm, plan9) in the quick tier",
+                        "targets are loaded with CGO_ENABLED=0; the two commands cannot be linked without cgo on android/386, android/amd64, android/arm, ios/* (toolchain restriction) — there the statements range over the library packages, which type-check on all targets",
+                        "Policy.Assemble takes its architecture from arch.GetInfo(\"\") only (filter.go), so `GetInfo(\"\")` errors ⇒ no filter; the model side is C07.defective_rejected (noTables)"],
     },
 }
